@@ -187,7 +187,11 @@ pub fn replay_evaluator(lines: &[Value], seed: u64) -> ReplayReport {
                 let want_last = e.arg(lastr).to_bits();
                 let shape_ok = o.state.0 == off
                     && o.state.1 == fe.len() - 1 - off
-                    && (o.state.2 == want_last || (lastr == NAN_RANK && f64::from_bits(o.state.2).is_nan()))
+                    // (the initial `last` is a breakpoint, later ones are arguments: under a signed-zero
+                    //  embedding the two zeros differ in bits, never in value)
+                    && (o.state.2 == want_last
+                        || (f64::from_bits(o.state.2) == 0.0 && f64::from_bits(want_last) == 0.0)
+                        || (lastr == NAN_RANK && f64::from_bits(o.state.2).is_nan()))
                     && (xr != NAN_RANK || o.seg == sel);
                 if !shape_ok {
                     rep.drf(json!({"kind":"evaluator-shape","embedding":e.name,"ends_rank":ends,"hist_rank":hist,"x_rank":xr,
